@@ -1,3 +1,285 @@
-//! C17 — not built yet.
+//! C17 — LP export denotes the same model: `LinearModel::to_lp_format()`.
+//!
+//! Correspondence: the text of the real writer vs. the Lean port `Lp.writeLP`, byte for byte.
+//! Oracle: the independent Lean LP reader is run on the IMPLEMENTATION's text and what it reads is
+//! compared with the model (sense, objective, constant, rows, names, bounds, markings, unique names).
 use crate::case::Case;
-pub fn generate(_seed: u64, _n: usize, _thorough: bool, _corpus: Option<&str>) -> Vec<Case> { vec![] }
+use crate::rng::Rng;
+use crate::sx;
+use rooc::{Comparison, LinearConstraint, LinearModel, OptimizationType, VariableType};
+use std::collections::BTreeMap;
+
+/// table `bits -> string Rust prints`, for every number the writer may print (value and magnitude)
+pub fn tok_table(m: &LinearModel) -> String {
+    let mut t: BTreeMap<u64, String> = BTreeMap::new();
+    let mut add = |v: f64| {
+        t.insert(v.to_bits(), format!("{}", v));
+        t.insert(v.abs().to_bits(), format!("{}", v.abs()));
+    };
+    for c in m.objective() { add(*c); }
+    add(m.objective_offset());
+    for r in m.constraints() {
+        for c in r.coefficients() { add(*c); }
+        add(r.rhs());
+    }
+    for (_, d) in m.domain() {
+        match d.get_type() {
+            VariableType::NonNegativeReal(a, b) | VariableType::Real(a, b) => { add(*a); add(*b); }
+            _ => {}
+        }
+    }
+    let mut s = String::from("(toks");
+    for (b, st) in &t { s.push_str(&format!(" (#x{:016x} {})", b, sx::q(st))); }
+    s.push(')');
+    s
+}
+
+/// the facts the theorems assume about number tokens, checked against Rust's own printer/parser
+fn num_tokens_ok(m: &LinearModel) -> bool {
+    let mut ok = true;
+    let mut chk = |v: f64| {
+        if !v.is_finite() { return; }
+        let s = format!("{}", v);
+        let a = format!("{}", v.abs());
+        let unsigned_ok = !a.is_empty() && a.as_bytes()[0].is_ascii_digit() && a.bytes().all(|b| b.is_ascii_digit() || b == b'.');
+        let sign_ok = if v.is_sign_negative() { s == format!("-{}", a) } else { s == a };
+        let back = a.parse::<f64>().map(|x| x.to_bits() == v.abs().to_bits()).unwrap_or(false);
+        if !(unsigned_ok && sign_ok && back) { ok = false; }
+    };
+    for c in m.objective() { chk(*c); }
+    chk(m.objective_offset());
+    for r in m.constraints() { for c in r.coefficients() { chk(*c); } chk(r.rhs()); }
+    for (_, d) in m.domain() {
+        if let VariableType::NonNegativeReal(a, b) | VariableType::Real(a, b) = d.get_type() { chk(*a); chk(*b); }
+    }
+    ok
+}
+
+const LP_RESERVED: [&str; 22] = ["minimize", "minimum", "min", "maximize", "maximum", "max", "st", "s.t.", "st.", "subject",
+    "such", "bounds", "bound", "binary", "binaries", "bin", "general", "generals", "gen", "end", "free", "inf"];
+
+fn one(m: &LinearModel, mut tags: Vec<String>) -> Case {
+    let lin = sx::lin_model(m);
+    let text = std::panic::catch_unwind(std::panic::AssertUnwindSafe(|| m.to_lp_format()));
+    let mut c = Case::default();
+    c.req = format!("lp {} {}", lin, tok_table(m));
+    c.show = format!("{:?}", m.to_string());
+    match text {
+        Ok(text) => {
+            c.imp = format!("(ok {})", sx::q(&text));
+            c.oracle = format!("check-lp {} {}", lin, sx::q(&text));
+            c.show = format!("LinearModel {{ {} }}  ->  {}", m.to_string().replace('\n', " | "), text.replace('\n', " | "));
+        }
+        Err(_) => {
+            c.imp = "(err panic)".into();
+            c.impl_violation = Some("to_lp_format panicked".into());
+        }
+    }
+    // feature tags
+    let all_nums: Vec<f64> = m.objective().iter().cloned()
+        .chain(m.constraints().iter().flat_map(|r| r.coefficients().iter().cloned().chain(std::iter::once(r.rhs()))))
+        .chain(std::iter::once(m.objective_offset())).collect();
+    if all_nums.iter().any(|v| !v.is_finite()) { tags.push("nonfinite-number".into()); }
+    if all_nums.iter().any(|v| *v < 0.0) { tags.push("negative".into()); }
+    if all_nums.iter().any(|v| v.fract() != 0.0 && v.is_finite()) { tags.push("fractional".into()); }
+    if all_nums.iter().any(|v| *v != 0.0 && v.abs() < 1e-5) { tags.push("tiny".into()); }
+    if all_nums.iter().any(|v| v.abs() >= 1e9 && v.is_finite()) { tags.push("large".into()); }
+    if all_nums.iter().any(|v| v.abs() == 1.0) { tags.push("unit-coefficient".into()); }
+    if all_nums.iter().any(|v| *v == 0.0 && v.is_sign_negative()) { tags.push("negative-zero".into()); }
+    if m.constraints().iter().any(|r| r.coefficients().iter().all(|c| *c == 0.0)) { tags.push("zero-row".into()); }
+    if m.objective().iter().all(|c| *c == 0.0) { tags.push("zero-objective".into()); }
+    if m.objective_offset() != 0.0 { tags.push("offset".into()); }
+    if m.constraints().iter().any(|r| r.name().is_empty()) { tags.push("unnamed-row".into()); }
+    if m.constraints().iter().any(|r| !r.name().is_empty()) { tags.push("named-row".into()); }
+    for r in m.constraints() { tags.push(format!("cmp-{}", sx::cmp(*r.constraint_type()))); }
+    tags.push(format!("sense-{}", sx::opt_type(m.optimization_type())));
+    for (_, d) in m.domain() {
+        tags.push(match d.get_type() {
+            VariableType::Boolean => "dom-boolean".into(),
+            VariableType::IntegerRange(a, _) => if *a < 0 { "dom-int-negative".into() } else { "dom-int".to_string() },
+            VariableType::NonNegativeReal(a, b) => if *a == 0.0 && *b == f64::INFINITY { "dom-nnreal-default".into() } else { "dom-nnreal-tight".to_string() },
+            VariableType::Real(a, b) => if *a == f64::NEG_INFINITY && *b == f64::INFINITY { "dom-free".into() }
+                else if a.is_infinite() || b.is_infinite() { "dom-real-halfinf".into() } else if *a < 0.0 { "dom-real-negative".into() } else { "dom-real".to_string() },
+        });
+    }
+    let gen_like = |n: &str| n.len() > 1 && n.starts_with('c') && n[1..].bytes().all(|b| b.is_ascii_digit());
+    if m.constraints().iter().any(|r| gen_like(&r.name())) { tags.push("user-name-looks-generated".into()); }
+    if m.variables().iter().chain(m.constraints().iter().map(|r| r.name()).collect::<Vec<_>>().iter())
+        .any(|n| LP_RESERVED.contains(&n.to_lowercase().as_str()) || n.to_lowercase() == "infinity") { tags.push("lp-keyword-name".into()); }
+    tags.push(if num_tokens_ok(m) { "numtoken-ok".into() } else { "numtoken-hyp-fails".to_string() });
+    // the decidable part of `WellFormed` (hypotheses of the theorem `read_write`), re-evaluated here
+    let sym = |c: char| "!\"#$%&(),;?@_'`{}~[]/|".contains(c);
+    let name_ok = |n: &str| {
+        let mut cs = n.chars();
+        match cs.next() {
+            None => false,
+            Some(c) => (c.is_ascii_alphabetic() || sym(c)) && cs.all(|c| c.is_ascii_alphanumeric() || sym(c) || c == '.')
+                && !LP_RESERVED.contains(&n.to_lowercase().as_str()) && n.to_lowercase() != "infinity",
+        }
+    };
+    let names_ok = m.variables().iter().all(|v| name_ok(v)) && m.domain().keys().all(|v| name_ok(v))
+        && m.constraints().iter().all(|r| r.name().is_empty() || name_ok(&r.name()));
+    let finite_ok = all_nums.iter().all(|v| v.is_finite());
+    let bounds_ok = m.domain().values().all(|d| match d.get_type() {
+        VariableType::NonNegativeReal(a, b) | VariableType::Real(a, b) => !a.is_nan() && !b.is_nan(), _ => true });
+    tags.push(if names_ok && finite_ok && bounds_ok && num_tokens_ok(m) { "read-write-hypotheses-hold".into() } else { "outside-read-write-hypotheses".to_string() });
+    tags.sort();
+    tags.dedup();
+    c.tags = tags;
+    c.nontrivial = !m.constraints().is_empty() || !m.domain().is_empty();
+    c
+}
+
+fn number(r: &mut Rng, stream: usize) -> f64 {
+    match stream {
+        // small integers, units and zeros
+        0 => *r.pick(&[0.0, 0.0, 1.0, -1.0, 2.0, -2.0, 3.0, 5.0, -7.0, 10.0, -0.0]),
+        // fractions (dyadic and decimal)
+        1 => match r.below(3) { 0 => r.range(-16, 16) as f64 / 8.0, 1 => r.range(-50, 50) as f64 / 10.0, _ => r.range(-999, 999) as f64 / 1000.0 },
+        // tiny / tolerance boundary
+        2 => { let k = *r.pick(&[1e-9, 2e-9, 1e-7, 1e-6, 9.99e-6, 1e-5, 1.0001e-5, 2e-5, 1e-10, 5e-324, 1e-300]); if r.chance(1, 2) { -k } else { k } }
+        // large
+        3 => { let k = *r.pick(&[1e9, 123456789.125, 1e15, 9007199254740993.0, 1e21, 1e22, 1.5e300, 999999999.9]); if r.chance(1, 2) { -k } else { k } }
+        // near one (unit-coefficient omission must be exact)
+        4 => *r.pick(&[1.0 + 1e-9, 1.0 - 1e-9, -1.0 - 1e-12, 1.0000000000000002, 0.9999999999999999, -1.0]),
+        _ => *r.pick(&[f64::INFINITY, f64::NEG_INFINITY, f64::NAN, 1.0, 0.0]),
+    }
+}
+
+fn var_type(r: &mut Rng) -> VariableType {
+    match r.below(12) {
+        0 | 1 => VariableType::Boolean,
+        2 => VariableType::IntegerRange(r.range(0, 3) as i32, r.range(3, 20) as i32),
+        3 => VariableType::IntegerRange(r.range(-20, -1) as i32, r.range(-1, 20) as i32),
+        4 => *r.pick(&[VariableType::IntegerRange(i32::MIN, i32::MAX), VariableType::IntegerRange(0, 0), VariableType::IntegerRange(-1, 1)]),
+        5 => VariableType::Real(f64::NEG_INFINITY, f64::INFINITY),
+        6 => VariableType::Real(number(r, 1), number(r, 1).abs() + 5.0),
+        7 => if r.chance(1, 2) { VariableType::Real(f64::NEG_INFINITY, number(r, 1)) } else { VariableType::Real(number(r, 1), f64::INFINITY) },
+        8 | 9 => VariableType::NonNegativeReal(0.0, f64::INFINITY),
+        10 => VariableType::NonNegativeReal(number(r, 1).abs(), number(r, 3).abs()),
+        _ => *r.pick(&[VariableType::NonNegativeReal(0.0, 4.0), VariableType::Real(0.0, f64::INFINITY), VariableType::Real(-1e-9, 1e9),
+                       VariableType::NonNegativeReal(-0.0, f64::INFINITY), VariableType::Real(-0.0, 0.0), VariableType::NonNegativeReal(0.000000000499997, 10.0)]),
+    }
+}
+
+const VAR_NAMES: [&str; 14] = ["x", "y", "z", "x_1", "x_a_b", "$abs_0", "$logic_witness_0", "$max_1_select_0", "c1", "c2", "X", "w2", "e1", "_u"];
+const ROW_NAMES: [&str; 9] = ["a", "row_1", "c1", "c2", "c3", "c4", "__aux", "$r", "cap"];
+
+fn random_model(r: &mut Rng, stream: usize, names: &[&str]) -> LinearModel {
+    let nv = 1 + r.below(4);
+    let mut m = LinearModel::new();
+    let mut pool: Vec<&str> = names.to_vec();
+    for _ in 0..nv {
+        let i = r.below(pool.len());
+        let n = pool.remove(i);
+        m.add_variable(n, var_type(r));
+    }
+    let num = |r: &mut Rng| { let s = if r.chance(1, 3) { 0 } else { stream }; number(r, s) };
+    let nr = r.below(5);
+    let mut rows = ROW_NAMES.to_vec();
+    for _ in 0..nr {
+        let k = r.below(nv + 1);
+        let coeffs: Vec<f64> = if r.chance(1, 8) { vec![0.0; k] } else { (0..k).map(|_| num(r)).collect() };
+        let cmp = *r.pick(&[Comparison::LessOrEqual, Comparison::GreaterOrEqual, Comparison::Equal, Comparison::LessOrEqual, Comparison::Less, Comparison::Greater]);
+        let rhs = num(r);
+        if r.chance(1, 2) { m.add_constraint(coeffs, cmp, rhs); }
+        else { let i = r.below(rows.len()); let n = rows.remove(i); m.add_named_constraint(coeffs, cmp, rhs, n); }
+    }
+    let k = r.below(nv + 1);
+    let obj: Vec<f64> = (0..k).map(|_| num(r)).collect();
+    let ot = match r.below(5) { 0 | 1 => OptimizationType::Min, 2 | 3 => OptimizationType::Max, _ => OptimizationType::Satisfy };
+    m.set_objective(obj, ot);
+    if r.chance(1, 2) {
+        let (o, t, _, c, v, d) = m.into_parts();
+        let off = if r.chance(1, 6) { -0.0 } else { num(r) };
+        m = LinearModel::new_from_parts(o, t, off, c, v, d);
+    }
+    m
+}
+
+fn seeded() -> Vec<(LinearModel, &'static str)> {
+    let mut out = vec![];
+    // the confirmed defect: unnamed row 2 is exported as `c2`, the user's row 1 is called `c2`
+    let mut m = LinearModel::new();
+    m.add_variable("x", VariableType::Real(-5.0, 10.0));
+    m.add_variable("y", VariableType::Real(-5.0, 10.0));
+    m.add_named_constraint(vec![1.0, 1.0], Comparison::GreaterOrEqual, 1.0, "c2");
+    m.add_constraint(vec![1.0, -2.0], Comparison::LessOrEqual, 3.0);
+    m.set_objective(vec![1.0, 1.0], OptimizationType::Min);
+    out.push((m, "seed-rowname-collision"));
+    // the repo's own test
+    let mut m = LinearModel::new();
+    m.add_variable("x", VariableType::non_negative_real());
+    m.add_variable("y", VariableType::IntegerRange(0, 10));
+    m.add_variable("b", VariableType::Boolean);
+    m.set_objective(vec![3.0, 2.0, 1.0], OptimizationType::Max);
+    m.add_constraint(vec![1.0, 1.0, 0.0], Comparison::LessOrEqual, 4.0);
+    m.add_constraint(vec![1.0, 0.0, -5.0], Comparison::GreaterOrEqual, 0.0);
+    out.push((m, "seed-repo-test"));
+    // empty model
+    out.push((LinearModel::new(), "seed-empty"));
+    // user names in the generated style that do NOT collide (c1 on row 1 is its own generated name)
+    let mut m = LinearModel::new();
+    m.add_variable("x", VariableType::non_negative_real());
+    m.add_named_constraint(vec![1.0], Comparison::LessOrEqual, 1.0, "c1");
+    m.add_constraint(vec![2.0], Comparison::LessOrEqual, 3.0);
+    m.add_named_constraint(vec![3.0], Comparison::LessOrEqual, 4.0, "c7");
+    m.set_objective(vec![1.0], OptimizationType::Satisfy);
+    out.push((m, "seed-generated-style-no-collision"));
+    // zero objective with an offset, zero row, -0 rhs
+    let mut m = LinearModel::new();
+    m.add_variable("x", VariableType::Real(f64::NEG_INFINITY, f64::INFINITY));
+    m.add_constraint(vec![0.0], Comparison::Equal, -0.0);
+    let (o, _, _, c, v, d) = m.into_parts();
+    out.push((LinearModel::new_from_parts(o, OptimizationType::Satisfy, 1.0, c, v, d), "seed-solve-offset"));
+    out
+}
+
+pub fn generate(seed: u64, n: usize, _thorough: bool, _corpus: Option<&str>) -> Vec<Case> {
+    let mut r = Rng::new(seed);
+    let mut cases = vec![];
+    for (m, tag) in seeded() { cases.push(one(&m, vec![tag.to_string(), "seeded".into()])); }
+    // corpus: source programs, compiled by the real front end, then exported
+    if let Some(dir) = _corpus {
+        if let Ok(rd) = std::fs::read_dir(dir) {
+            let mut files: Vec<_> = rd.filter_map(|e| e.ok()).map(|e| e.path()).filter(|p| p.extension().map(|x| x == "rooc").unwrap_or(false)).collect();
+            files.sort();
+            for f in files {
+                if let Ok(src) = std::fs::read_to_string(&f) {
+                    let lm = std::panic::catch_unwind(move || {
+                        rooc::RoocParser::new(src).parse_and_transform(vec![], &indexmap::IndexMap::new()).ok()
+                            .and_then(|m| rooc::Linearizer::linearize(m).ok())
+                    }).ok().flatten();
+                    if let Some(lm) = lm { cases.push(one(&lm, vec!["corpus".into(), "compiled-linear-model".into()])); }
+                }
+            }
+        }
+    }
+    // single-coefficient sweep: every interesting number as coefficient, rhs, offset and bound
+    let sweep: Vec<f64> = vec![0.0, -0.0, 1.0, -1.0, 0.5, -0.5, 0.1, -0.1, 1e-9, -1e-9, 1e-6, -1e-6, 1e-5, -1e-5, 1e9, -1e9, 123456.789,
+        1.0000000000000002, 0.3333333333333333, 2.5e-7, 1e21, 1e22, 5e-324, 1.7976931348623157e308, 4503599627370497.5];
+    for v in &sweep {
+        let mut m = LinearModel::new();
+        m.add_variable("x", VariableType::Real(*v, f64::INFINITY));
+        m.add_variable("y", VariableType::NonNegativeReal(0.0, v.abs()));
+        m.add_named_constraint(vec![*v, 1.0], Comparison::LessOrEqual, *v, "r");
+        m.add_constraint(vec![2.0, *v], Comparison::GreaterOrEqual, -*v);
+        m.set_objective(vec![*v, *v], OptimizationType::Min);
+        let (o, t, _, c, vs, d) = m.into_parts();
+        cases.push(one(&LinearModel::new_from_parts(o, t, *v, c, vs, d), vec!["sweep".into()]));
+    }
+    let streams = ["ints", "fractions", "tiny", "large", "near-one", "nonfinite"];
+    for i in 0..n {
+        // the non-finite stream is 1 in 12 (outside the property's quantifier: correspondence only)
+        let stream = if i % 12 == 11 { 5 } else { i % 5 };
+        let m = random_model(&mut r, stream, &VAR_NAMES);
+        cases.push(one(&m, vec![format!("random-{}", streams[stream])]));
+    }
+    // names that are words of the LP format itself
+    let kw = ["free", "inf", "End", "st", "Bounds", "x", "y"];
+    for _ in 0..(n / 25).max(4) {
+        let m = random_model(&mut r, 0, &kw);
+        cases.push(one(&m, vec!["random-lp-keyword-names".into()]));
+    }
+    cases
+}
